@@ -65,6 +65,19 @@ THEOREMS = [
     "JanetModel.Props.C05.guard_clobbers_status_in_old_order",
     "JanetModel.Fiber.stepG_res",
     "JanetModel.Props.C05.dyn_visibility",
+    "JanetModel.Props.C05.dyn_observes_nearest_binding",
+    "JanetModel.Props.C05.dyn_set_invisible_elsewhere",
+    "JanetModel.Props.C05.dyn_set_visible_through_links",
+    "JanetModel.Props.C05.setdyn_instruction_writes_own_table",
+    "JanetModel.Props.C05.dyn_instruction_reads_own_chain",
+    "JanetModel.Props.C05.fiber_new_env_links",
+    "JanetModel.Props.C05.dyn_links_permanent",
+    "JanetModel.Props.C05.finished_is_forever_sched",
+    "JanetModel.Props.C05.macro_runs_exactly_once_sched",
+    "JanetModel.Props.C05.defer_runs_exactly_once_sched",
+    "JanetModel.Fiber.loopEnter_G",
+    "JanetModel.Fiber.loopEnter_res",
+    "JanetModel.Fiber.blocked_until_exit_sched",
     "JanetModel.Fiber.step_res",
     "JanetModel.Fiber.step_G",
     "JanetModel.Fiber.blocked_until_exit",
